@@ -167,7 +167,7 @@ func c14(e *Env) {
 		}
 	})
 	// ---- random
-	nr := e.N(5000, 200000)
+	nr := e.N(5000, 1000000)
 	e.Par(16, func(w int) {
 		rng := gen.NewRng(e.Seed, "C14", "random", w)
 		for i := 0; i < nr/16; i++ {
